@@ -486,6 +486,7 @@ class C08(RunSpec):
         p["lscs"] = ["user", "melimit", "dontstop", "user"]
         p["gscs"] = ["melimit"]
         p["fams"] = ["rastrigin", "funnel", "plateau", "sphere"]
+        p["hibernation_p"] = 0.5  # sleeping demes are still active and occupy their slot
         return p
 
     def floors(self, tier):
@@ -493,6 +494,7 @@ class C08(RunSpec):
             ("C08.rounds_cut_with_2_parents", 1, "round with more candidates than free slots and >=2 parents"),
             ("C08.slot_refilled", 1, "slot freed and re-filled"),
             ("C08.level_full_seen", 1, "level full at a census"),
+            ("C08.level_full_with_a_hibernating_deme", 1, "level full while one of its demes hibernates"),
         ]
 
 
@@ -676,10 +678,48 @@ class C18(RunSpec):
         ]
 
 
+def run_repo_tests_under_taps(prop):
+    """Workload 3: the repository's own tests executed with contract-style taps (vlib/pytest_taps.py) - 55 more
+    executions for the oracles to watch.  Zero evaluations of a contract => reported, never 'held' by itself."""
+    import json as _json
+    import os
+    import subprocess
+    import tempfile
+
+    from . import env
+
+    out = tempfile.mktemp(prefix="taps-", suffix=".json", dir=env.scratch_root())
+    envv = dict(os.environ)
+    envv["VERIF_TAPS_OUT"] = out
+    envv["PYTHONPATH"] = env.VERIF_DIR + os.pathsep + envv.get("PYTHONPATH", "")
+    envv["VERIF_REPO"] = env.REPO
+    cov = Counter()
+    viols = []
+    try:
+        p = subprocess.run(
+            [env.PYTHON, "-m", "pytest", "-q", "-p", "no:cacheprovider", "-p", "vlib.pytest_taps", "--timeout=900", "-x"],
+            cwd=env.REPO, env=envv, capture_output=True, text=True, timeout=600,
+        )
+        cov["repo_tests_under_taps.sessions"] += 1
+        if os.path.exists(out):
+            data = _json.load(open(out))
+            os.unlink(out)
+            for k, v in data["counts"].items():
+                cov["repo_tests_under_taps." + k] += v
+            viols = [v for v in data["violations"] if v["property"] == prop]
+            cov["repo_tests_under_taps.exitstatus_%d" % data["exitstatus"]] += 1
+        else:
+            cov["repo_tests_under_taps.no_result_file"] += 1
+    except subprocess.TimeoutExpired:
+        cov["repo_tests_under_taps.timeout"] += 1
+    return {"violations": viols, "cov": cov, "nontrivial": [], "sample": {"workload": "repository tests under taps", "counts": {k: v for k, v in cov.items()}}}
+
+
 class DirectSpec(Spec):
     """Direct calls of pure components on generated / adversarial inputs, compared with a reference model."""
 
     module = None
+    repo_tests_case = None  # case index that runs the repository's tests under taps (thorough tier)
 
     def _mod(self):
         import importlib
@@ -687,11 +727,15 @@ class DirectSpec(Spec):
         return importlib.import_module(f"vlib.monitors.{self.module}")
 
     def make_case(self, seed, idx, tier):
+        if tier == "thorough" and self.repo_tests_case is not None and idx == self.repo_tests_case:
+            return {"kind": "repo_tests_under_taps", "idx": idx}
         return self._mod().make_case(seed, idx, tier)
 
     def run_case(self, desc):
         from . import env
 
+        if desc.get("kind") == "repo_tests_under_taps":
+            return run_repo_tests_under_taps(self.prop)
         env.import_pyhms()
         return self._mod().run_case(desc)
 
@@ -707,6 +751,7 @@ C17_POINT_CLASSES = [
 class C17(DirectSpec):
     prop = "C17"
     module = "c17"
+    repo_tests_case = 5
     rule = (
         "apply_bounds called directly on whole 2-D arrays mixing interior / face / ulp-neighbour / multiple-of-range / half-period / far "
         "points for boxes of every class; exact rational oracle; distinct non-trivial = distinct (method, box class, point class) cells with >=1 input outside the box"
@@ -738,6 +783,7 @@ class C16(DirectSpec):
     def floors(self, tier):
         fl = [(f"pair.inner={a}.outer={b}", 1, "ordered pair of wrapper kinds") for a in ("count", "cutoff", "prec", "stats") for b in ("count", "cutoff", "prec", "stats")]
         n = self.sizes[tier]
+        fl += [("C16.real_stack_checks", 20, "wrapper stacks of real runs checked"), ("C16.real_stack_checks_with_saturated_cutoff", 1, "real stack with a saturated cutoff")]
         fl += [("sequences_with_calls_past_cutoff", n // 10, "calls past the cutoff in >=10% of sequences"), ("sequences_with_repeated_precision_hits", n // 10, "repeated precision hits in >=10% of sequences")]
         return fl
 
@@ -765,6 +811,7 @@ class C15(DirectSpec):
         n = self.sizes[tier]
         fl = [(f"class.{c}.{dr}", 1, "input class x direction") for c in CLASSES for dr in ("min", "max")]
         fl += [("K_equals_1", n // 100, ">=1% of cases with K=1"), ("converged_populations", n // 20, ">=5% converged")]
+        fl += [("C15.real_populations_checked", 20, "NBC generator calls on real populations re-derived with the reference")]
         return fl
 
 
@@ -898,6 +945,7 @@ class C20(RunSpec):
 class C10(DirectSpec):
     prop = "C10"
     module = "c10"
+    repo_tests_case = 5
     rule = (
         "generators and filters called directly on synthetic trees (real DemeTree objects of 2-3 levels shaped by the harness: extra children with chosen seeds, activity flags, just-finished demes) "
         "and synthetic candidate sets (sizes 0-12 per parent, distinct / tied / all-equal fitness, exact and near duplicates of existing seeds, both directions, limits 1-5, chains in random order), "
